@@ -21,7 +21,7 @@ RULE = ("cases = (p, q, v): unit quaternions drawn per region (generic Haar, pur
         "each case drives all 21 routes; non-trivial = q is not +-identity; distinct = hash of route+input bytes")
 ASSUMPTIONS = ["NumPy arithmetic is trusted", "reference model vt/ref/quat.py (Hamilton product; R columns = vec(q e_i q*))"]
 
-MAT_ROUTES = ["Quaternion.to_DCM", "Quaternion.to_DCM[order=S]", "QuaternionArray.to_DCM[N]", "QuaternionArray.to_DCM[N,order=S]", "QuaternionArray.to_DCM[1]", "DCM(q=)",
+MAT_ROUTES = ["Quaternion.to_DCM", "Quaternion.to_DCM[order=S]", "Quaternion.to_DCM[order=S, derived object]", "QuaternionArray.to_DCM[N]", "QuaternionArray.to_DCM[N,order=S]", "QuaternionArray.to_DCM[1]", "DCM(q=)",
               "DCM.from_quaternion", "DCM.from_quaternion[batch]", "DCM.from_q", "q2R.v1", "q2R.v2",
               "q2R.v1[batch]", "q2R.v2[batch]"]
 OBJ_ROUTES = ["normalize()->routes"]
@@ -65,6 +65,10 @@ def nontrivial(case):
     return abs(abs(case.p["q"][0]) - 1.0) > 0
 
 
+import copy as _copy
+DERIVE = [lambda X: X.copy(), lambda X: -X, lambda X: X.view(), _copy.deepcopy, lambda X: np.negative(X), lambda X: +X, _copy.copy]
+
+
 def _mat_routes(p, q):
     """route -> thunk returning the rotation matrix of quaternion x (fresh copies each)."""
     import ahrs
@@ -77,6 +81,8 @@ def _mat_routes(p, q):
     return {
         "Quaternion.to_DCM": lambda x: Q(x.copy()).to_DCM(),
         "Quaternion.to_DCM[order=S]": lambda x: Q(np.r_[x[1:], x[0]], order="S").to_DCM(),              # the same quaternion stored scalar-last
+        # ... and objects NumPy derives from the scalar-last one (a copy, a view, the negative - which is the same rotation): still that quaternion
+        "Quaternion.to_DCM[order=S, derived object]": lambda x: DERIVE[int(abs(float(x[0])) * 1e6) % len(DERIVE)](Q(np.r_[x[1:], x[0]], order="S")).to_DCM(),
         "QuaternionArray.to_DCM[N]": lambda x: QA(rows(x)).to_DCM()[0],
         "QuaternionArray.to_DCM[N,order=S]": lambda x: QA(np.c_[rows(x)[:, 1:], rows(x)[:, 0]], order="S").to_DCM()[0],
         "QuaternionArray.to_DCM[1]": lambda x: QA(x.copy()[None]).to_DCM()[0],
